@@ -57,6 +57,29 @@ pub const FLAGS: [&[&str]; 5] = [
 	],
 ];
 
+/// Callbacks counted by the plan-driven visitors (what was delivered, not only what the tree builder kept of it):
+/// index into [`Events`].
+pub const EVENT_NAMES: [&str; 38] = [
+	"class.visit_deprecated_and_synthetic_attribute", "class.visit_inner_classes", "class.visit_enclosing_method", "class.visit_signature",
+	"class.visit_source_file", "class.visit_source_debug_extension", "class.visit_annotations(visible)", "class.visit_annotations(invisible)",
+	"class.visit_type_annotations(visible)", "class.visit_type_annotations(invisible)", "class.visit_module", "class.visit_module_packages",
+	"class.visit_module_main_class", "class.visit_nest_host_class", "class.visit_nest_members", "class.visit_permitted_subclasses",
+	"class.visit_record_component", "class.visit_unknown_attribute", "class.visit_field", "class.visit_method",
+	"method.visit_deprecated_and_synthetic_attribute", "method.visit_exceptions", "method.visit_signature", "method.visit_annotations",
+	"method.visit_type_annotations", "method.visit_annotation_default", "method.visit_parameters", "method.visit_unknown_attribute", "method.visit_code",
+	"code.visit_max_stack_and_max_locals", "code.visit_exception_table", "code.visit_instruction", "code.visit_last_label", "code.visit_line_numbers",
+	"code.visit_local_variables", "code.visit_type_annotations", "code.visit_unknown_attribute", "method.finish_code",
+];
+pub const EV_LOCAL_VARIABLES: usize = 34;
+pub const EV_LAST_LABEL: usize = 32;
+pub type Events = [u32; 38];
+
+fn add_events(a: &mut Events, b: &Events) {
+	for (x, y) in a.iter_mut().zip(b.iter()) {
+		*x += *y;
+	}
+}
+
 /// The environment's answers: which interests the visitor reports and which items it declines.
 /// The default plan is "every interest on, every class and member accepted".
 #[derive(Clone, Debug, Default, PartialEq, Eq, Hash)]
@@ -256,6 +279,7 @@ pub struct St<'a> {
 	field_i: u16,
 	method_i: u16,
 	pub decisions: u64,
+	pub events: Events,
 }
 
 // ---------------------------------------------------------------------------------------------
@@ -267,11 +291,13 @@ pub struct Multi<'a> {
 	plan: &'a Plan,
 	/// answers given by the visitor (interests() calls, accept/decline, visit_code)
 	pub decisions: u64,
+	/// callbacks received by the class, method and code visitors handed out
+	pub events: Events,
 }
 
 impl<'a> Multi<'a> {
 	pub fn new(plan: &'a Plan) -> Multi<'a> {
-		Multi { out: Vec::new(), plan, decisions: 0 }
+		Multi { out: Vec::new(), plan, decisions: 0, events: [0; 38] }
 	}
 }
 
@@ -279,6 +305,7 @@ pub struct MultiResidual<'a> {
 	inner: <Vec<ClassFile> as MultiClassVisitor>::ClassResidual,
 	plan: &'a Plan,
 	decisions: u64,
+	events: Events,
 }
 
 impl<'a> MultiClassVisitor for Multi<'a> {
@@ -287,23 +314,25 @@ impl<'a> MultiClassVisitor for Multi<'a> {
 
 	fn visit_class(self, version: Version, access: ClassAccess, name: ObjClassName, super_class: Option<ObjClassName>, interfaces: Vec<ObjClassName>)
 			-> Result<ControlFlow<Self, (Self::ClassResidual, Self::ClassVisitor)>> {
-		let Multi { out, plan, decisions } = self;
+		let Multi { out, plan, decisions, events } = self;
 		let decisions = decisions + 1;
 		if plan.decline_class {
-			return Ok(ControlFlow::Break(Multi { out, plan, decisions }));
+			return Ok(ControlFlow::Break(Multi { out, plan, decisions, events }));
 		}
 		Ok(match out.visit_class(version, access, name, super_class, interfaces)? {
 			ControlFlow::Continue((inner, class)) => ControlFlow::Continue((
-				MultiResidual { inner, plan, decisions },
-				MClass { inner: class, st: St { plan, record_i: 0, field_i: 0, method_i: 0, decisions: 0 } },
+				MultiResidual { inner, plan, decisions, events },
+				MClass { inner: class, st: St { plan, record_i: 0, field_i: 0, method_i: 0, decisions: 0, events: [0; 38] } },
 			)),
-			ControlFlow::Break(out) => ControlFlow::Break(Multi { out, plan, decisions }),
+			ControlFlow::Break(out) => ControlFlow::Break(Multi { out, plan, decisions, events }),
 		})
 	}
 
 	fn finish_class(this: Self::ClassResidual, class_visitor: Self::ClassVisitor) -> Result<Self> {
 		let out = <Vec<ClassFile> as MultiClassVisitor>::finish_class(this.inner, class_visitor.inner)?;
-		Ok(Multi { out, plan: this.plan, decisions: this.decisions + class_visitor.st.decisions })
+		let mut events = this.events;
+		add_events(&mut events, &class_visitor.st.events);
+		Ok(Multi { out, plan: this.plan, decisions: this.decisions + class_visitor.st.decisions, events })
 	}
 }
 
@@ -333,32 +362,40 @@ impl<'a> ClassVisitor for MClass<'a> {
 	}
 
 	fn visit_deprecated_and_synthetic_attribute(&mut self, deprecated: bool, synthetic: bool) -> Result<()> {
+		self.st.events[0] += 1;
 		self.inner.visit_deprecated_and_synthetic_attribute(deprecated, synthetic)
 	}
 	fn visit_inner_classes(&mut self, inner_classes: Vec<InnerClass>) -> Result<()> {
+		self.st.events[1] += 1;
 		self.inner.visit_inner_classes(inner_classes)
 	}
 	fn visit_enclosing_method(&mut self, enclosing_method: EnclosingMethod) -> Result<()> {
+		self.st.events[2] += 1;
 		self.inner.visit_enclosing_method(enclosing_method)
 	}
 	fn visit_signature(&mut self, signature: ClassSignature) -> Result<()> {
+		self.st.events[3] += 1;
 		self.inner.visit_signature(signature)
 	}
 	fn visit_source_file(&mut self, source_file: JavaString) -> Result<()> {
+		self.st.events[4] += 1;
 		self.inner.visit_source_file(source_file)
 	}
 	fn visit_source_debug_extension(&mut self, source_debug_extension: JavaString) -> Result<()> {
+		self.st.events[5] += 1;
 		self.inner.visit_source_debug_extension(source_debug_extension)
 	}
 
-	fn visit_annotations(self, visible: bool) -> Result<(Self::AnnotationsResidual, Self::AnnotationsVisitor)> {
+	fn visit_annotations(mut self, visible: bool) -> Result<(Self::AnnotationsResidual, Self::AnnotationsVisitor)> {
+		self.st.events[if visible { 6 } else { 7 }] += 1;
 		let (residual, visitor) = self.inner.visit_annotations(visible)?;
 		Ok(((residual, self.st), visitor))
 	}
 	fn finish_annotations((residual, st): Self::AnnotationsResidual, annotations_visitor: Self::AnnotationsVisitor) -> Result<Self> {
 		Ok(MClass { inner: <Tree as ClassVisitor>::finish_annotations(residual, annotations_visitor)?, st })
 	}
-	fn visit_type_annotations(self, visible: bool) -> Result<(Self::TypeAnnotationsResidual, Self::TypeAnnotationsVisitor)> {
+	fn visit_type_annotations(mut self, visible: bool) -> Result<(Self::TypeAnnotationsResidual, Self::TypeAnnotationsVisitor)> {
+		self.st.events[if visible { 8 } else { 9 }] += 1;
 		let (residual, visitor) = self.inner.visit_type_annotations(visible)?;
 		Ok(((residual, self.st), visitor))
 	}
@@ -367,21 +404,27 @@ impl<'a> ClassVisitor for MClass<'a> {
 	}
 
 	fn visit_module(&mut self, module: Module) -> Result<()> {
+		self.st.events[10] += 1;
 		self.inner.visit_module(module)
 	}
 	fn visit_module_packages(&mut self, module_packages: Vec<PackageName>) -> Result<()> {
+		self.st.events[11] += 1;
 		self.inner.visit_module_packages(module_packages)
 	}
 	fn visit_module_main_class(&mut self, module_main_class: ClassName) -> Result<()> {
+		self.st.events[12] += 1;
 		self.inner.visit_module_main_class(module_main_class)
 	}
 	fn visit_nest_host_class(&mut self, nest_host_class: ClassName) -> Result<()> {
+		self.st.events[13] += 1;
 		self.inner.visit_nest_host_class(nest_host_class)
 	}
 	fn visit_nest_members(&mut self, nest_members: Vec<ClassName>) -> Result<()> {
+		self.st.events[14] += 1;
 		self.inner.visit_nest_members(nest_members)
 	}
 	fn visit_permitted_subclasses(&mut self, permitted_subclasses: Vec<ClassName>) -> Result<()> {
+		self.st.events[15] += 1;
 		self.inner.visit_permitted_subclasses(permitted_subclasses)
 	}
 
@@ -391,6 +434,7 @@ impl<'a> ClassVisitor for MClass<'a> {
 		let i = st.record_i;
 		st.record_i += 1;
 		st.decisions += 1;
+		st.events[16] += 1;
 		if st.plan.decline_records.contains(&i) {
 			return Ok(ControlFlow::Break(MClass { inner, st }));
 		}
@@ -407,6 +451,7 @@ impl<'a> ClassVisitor for MClass<'a> {
 	}
 
 	fn visit_unknown_attribute(&mut self, unknown_attribute: Self::UnknownAttribute) -> Result<()> {
+		self.st.events[17] += 1;
 		self.inner.visit_unknown_attribute(unknown_attribute)
 	}
 
@@ -416,6 +461,7 @@ impl<'a> ClassVisitor for MClass<'a> {
 		let i = st.field_i;
 		st.field_i += 1;
 		st.decisions += 1;
+		st.events[18] += 1;
 		if st.plan.decline_fields.contains(&i) {
 			return Ok(ControlFlow::Break(MClass { inner, st }));
 		}
@@ -437,12 +483,13 @@ impl<'a> ClassVisitor for MClass<'a> {
 		let i = st.method_i;
 		st.method_i += 1;
 		st.decisions += 1;
+		st.events[19] += 1;
 		if st.plan.decline_methods.contains(&i) {
 			return Ok(ControlFlow::Break(MClass { inner, st }));
 		}
 		Ok(match inner.visit_method(access, name, descriptor)? {
 			ControlFlow::Continue((residual, visitor)) => {
-				let mv = MMethod { inner: visitor, mst: MSt { plan: st.plan, index: i, no_code: st.plan.no_code.contains(&i), decisions: 1 } };
+				let mv = MMethod { inner: visitor, mst: MSt { plan: st.plan, index: i, no_code: st.plan.no_code.contains(&i), decisions: 1, events: [0; 38] } };
 				ControlFlow::Continue(((residual, st), mv))
 			},
 			ControlFlow::Break(inner) => ControlFlow::Break(MClass { inner, st }),
@@ -450,6 +497,7 @@ impl<'a> ClassVisitor for MClass<'a> {
 	}
 	fn finish_method((residual, mut st): Self::MethodResidual, method_visitor: Self::MethodVisitor) -> Result<Self> {
 		st.decisions += method_visitor.mst.decisions;
+		add_events(&mut st.events, &method_visitor.mst.events);
 		Ok(MClass { inner: <Tree as ClassVisitor>::finish_method(residual, method_visitor.inner)?, st })
 	}
 }
@@ -464,6 +512,7 @@ pub struct MSt<'a> {
 	index: u16,
 	no_code: bool,
 	decisions: u64,
+	events: Events,
 }
 
 pub struct MMethod<'a> {
@@ -486,30 +535,36 @@ impl<'a> MethodVisitor for MMethod<'a> {
 	}
 
 	fn visit_deprecated_and_synthetic_attribute(&mut self, deprecated: bool, synthetic: bool) -> Result<()> {
+		self.mst.events[20] += 1;
 		self.inner.visit_deprecated_and_synthetic_attribute(deprecated, synthetic)
 	}
 	fn visit_exceptions(&mut self, exceptions: Vec<ClassName>) -> Result<()> {
+		self.mst.events[21] += 1;
 		self.inner.visit_exceptions(exceptions)
 	}
 	fn visit_signature(&mut self, signature: MethodSignature) -> Result<()> {
+		self.mst.events[22] += 1;
 		self.inner.visit_signature(signature)
 	}
 
-	fn visit_annotations(self, visible: bool) -> Result<(Self::AnnotationsResidual, Self::AnnotationsVisitor)> {
+	fn visit_annotations(mut self, visible: bool) -> Result<(Self::AnnotationsResidual, Self::AnnotationsVisitor)> {
+		self.mst.events[23] += 1;
 		let (residual, visitor) = self.inner.visit_annotations(visible)?;
 		Ok(((residual, self.mst), visitor))
 	}
 	fn finish_annotations((residual, mst): Self::AnnotationsResidual, annotations_visitor: Self::AnnotationsVisitor) -> Result<Self> {
 		Ok(MMethod { inner: <Method as MethodVisitor>::finish_annotations(residual, annotations_visitor)?, mst })
 	}
-	fn visit_type_annotations(self, visible: bool) -> Result<(Self::TypeAnnotationsResidual, Self::TypeAnnotationsVisitor)> {
+	fn visit_type_annotations(mut self, visible: bool) -> Result<(Self::TypeAnnotationsResidual, Self::TypeAnnotationsVisitor)> {
+		self.mst.events[24] += 1;
 		let (residual, visitor) = self.inner.visit_type_annotations(visible)?;
 		Ok(((residual, self.mst), visitor))
 	}
 	fn finish_type_annotations((residual, mst): Self::TypeAnnotationsResidual, type_annotations_visitor: Self::TypeAnnotationsVisitor) -> Result<Self> {
 		Ok(MMethod { inner: <Method as MethodVisitor>::finish_type_annotations(residual, type_annotations_visitor)?, mst })
 	}
-	fn visit_annotation_default(self) -> Result<(Self::AnnotationDefaultResidual, Self::AnnotationDefaultVisitor)> {
+	fn visit_annotation_default(mut self) -> Result<(Self::AnnotationDefaultResidual, Self::AnnotationDefaultVisitor)> {
+		self.mst.events[25] += 1;
 		let (residual, visitor) = self.inner.visit_annotation_default()?;
 		Ok(((residual, self.mst), visitor))
 	}
@@ -518,25 +573,30 @@ impl<'a> MethodVisitor for MMethod<'a> {
 	}
 
 	fn visit_parameters(&mut self, method_parameters: Vec<MethodParameter>) -> Result<()> {
+		self.mst.events[26] += 1;
 		self.inner.visit_parameters(method_parameters)
 	}
 	fn visit_annotable_parameter_count(&mut self) {}
 	fn visit_parameter_annotation(&mut self) {}
 
 	fn visit_unknown_attribute(&mut self, unknown_attribute: Self::UnknownAttribute) -> Result<()> {
+		self.mst.events[27] += 1;
 		self.inner.visit_unknown_attribute(unknown_attribute)
 	}
 
 	fn visit_code(&mut self) -> Result<Option<Self::CodeVisitor>> {
 		self.mst.decisions += 1;
+		self.mst.events[28] += 1;
 		if self.mst.no_code {
 			return Ok(None);
 		}
 		self.mst.decisions += 1; // the code visitor's interests() answer
 		let off = self.mst.plan.off_of(CODE, self.mst.index);
-		Ok(self.inner.visit_code()?.map(|inner| MCode { inner, off }))
+		Ok(self.inner.visit_code()?.map(|inner| MCode { inner, off, events: [0; 38] }))
 	}
 	fn finish_code(&mut self, code_visitor: Self::CodeVisitor) -> Result<()> {
+		self.mst.events[37] += 1;
+		add_events(&mut self.mst.events, &code_visitor.events);
 		self.inner.finish_code(code_visitor.inner)
 	}
 }
@@ -544,11 +604,12 @@ impl<'a> MethodVisitor for MMethod<'a> {
 pub struct MCode {
 	inner: Code,
 	off: u32,
+	events: Events,
 }
 
 impl CodeVisitor for MCode {
 	type TypeAnnotationsVisitor = <Code as CodeVisitor>::TypeAnnotationsVisitor;
-	type TypeAnnotationsResidual = (<Code as CodeVisitor>::TypeAnnotationsResidual, u32);
+	type TypeAnnotationsResidual = (<Code as CodeVisitor>::TypeAnnotationsResidual, u32, Events);
 	type UnknownAttribute = <Code as CodeVisitor>::UnknownAttribute;
 
 	fn interests(&self) -> CodeInterests {
@@ -558,31 +619,39 @@ impl CodeVisitor for MCode {
 	}
 
 	fn visit_max_stack_and_max_locals(&mut self, max_stack: u16, max_locals: u16) -> Result<()> {
+		self.events[29] += 1;
 		self.inner.visit_max_stack_and_max_locals(max_stack, max_locals)
 	}
 	fn visit_exception_table(&mut self, exception_table: Vec<Exception>) -> Result<()> {
+		self.events[30] += 1;
 		self.inner.visit_exception_table(exception_table)
 	}
 	fn visit_instruction(&mut self, label: Option<Label>, frame: Option<StackMapData>, instruction: Instruction) -> Result<()> {
+		self.events[31] += 1;
 		self.inner.visit_instruction(label, frame, instruction)
 	}
 	fn visit_last_label(&mut self, last_label: Label) -> Result<()> {
+		self.events[32] += 1;
 		self.inner.visit_last_label(last_label)
 	}
 	fn visit_line_numbers(&mut self, line_number_table: Vec<(Label, u16)>) -> Result<()> {
+		self.events[33] += 1;
 		self.inner.visit_line_numbers(line_number_table)
 	}
 	fn visit_local_variables(&mut self, local_variables: Vec<Lv>) -> Result<()> {
+		self.events[34] += 1;
 		self.inner.visit_local_variables(local_variables)
 	}
-	fn visit_type_annotations(self, visible: bool) -> Result<(Self::TypeAnnotationsResidual, Self::TypeAnnotationsVisitor)> {
+	fn visit_type_annotations(mut self, visible: bool) -> Result<(Self::TypeAnnotationsResidual, Self::TypeAnnotationsVisitor)> {
+		self.events[35] += 1;
 		let (residual, visitor) = self.inner.visit_type_annotations(visible)?;
-		Ok(((residual, self.off), visitor))
+		Ok(((residual, self.off, self.events), visitor))
 	}
-	fn finish_type_annotations((residual, off): Self::TypeAnnotationsResidual, type_annotations_visitor: Self::TypeAnnotationsVisitor) -> Result<Self> {
-		Ok(MCode { inner: <Code as CodeVisitor>::finish_type_annotations(residual, type_annotations_visitor)?, off })
+	fn finish_type_annotations((residual, off, events): Self::TypeAnnotationsResidual, type_annotations_visitor: Self::TypeAnnotationsVisitor) -> Result<Self> {
+		Ok(MCode { inner: <Code as CodeVisitor>::finish_type_annotations(residual, type_annotations_visitor)?, off, events })
 	}
 	fn visit_unknown_attribute(&mut self, unknown_attribute: Self::UnknownAttribute) -> Result<()> {
+		self.events[36] += 1;
 		self.inner.visit_unknown_attribute(unknown_attribute)
 	}
 }
@@ -595,11 +664,13 @@ pub struct SimpleMulti<'a> {
 	pub out: Vec<ClassFile>,
 	plan: &'a Plan,
 	pub decisions: u64,
+	/// callbacks received by the method and code visitors handed out (the class level is duke's blanket impl)
+	pub events: Events,
 }
 
 impl<'a> SimpleMulti<'a> {
 	pub fn new(plan: &'a Plan) -> SimpleMulti<'a> {
-		SimpleMulti { out: Vec::new(), plan, decisions: 0 }
+		SimpleMulti { out: Vec::new(), plan, decisions: 0, events: [0; 38] }
 	}
 }
 
@@ -618,12 +689,13 @@ impl<'a> MultiClassVisitor for SimpleMulti<'a> {
 		if self.plan.decline_class {
 			return Ok(ControlFlow::Break(self));
 		}
-		let st = St { plan: self.plan, record_i: 0, field_i: 0, method_i: 0, decisions: 1 };
+		let st = St { plan: self.plan, record_i: 0, field_i: 0, method_i: 0, decisions: 1, events: [0; 38] };
 		Ok(ControlFlow::Continue((self, Simple { shell: ClassFile::new(version, access, name, super_class, interfaces), st })))
 	}
 
 	fn finish_class(mut this: Self::ClassResidual, class_visitor: Self::ClassVisitor) -> Result<Self> {
 		this.decisions += class_visitor.st.decisions;
+		add_events(&mut this.events, &class_visitor.st.events);
 		this.out.push(class_visitor.shell);
 		Ok(this)
 	}
@@ -637,6 +709,7 @@ impl<'a> SimpleClassVisitor for Simple<'a> {
 		let i = self.st.field_i;
 		self.st.field_i += 1;
 		self.st.decisions += 1;
+		self.st.events[18] += 1;
 		if self.st.plan.decline_fields.contains(&i) {
 			return Ok(None);
 		}
@@ -652,13 +725,15 @@ impl<'a> SimpleClassVisitor for Simple<'a> {
 		let i = self.st.method_i;
 		self.st.method_i += 1;
 		self.st.decisions += 1;
+		self.st.events[19] += 1;
 		if self.st.plan.decline_methods.contains(&i) {
 			return Ok(None);
 		}
-		Ok(Some(MMethod { inner: Method::new(access, name, descriptor), mst: MSt { plan: self.st.plan, index: i, no_code: self.st.plan.no_code.contains(&i), decisions: 1 } }))
+		Ok(Some(MMethod { inner: Method::new(access, name, descriptor), mst: MSt { plan: self.st.plan, index: i, no_code: self.st.plan.no_code.contains(&i), decisions: 1, events: [0; 38] } }))
 	}
 	fn finish_method(&mut self, method_visitor: Self::MethodVisitor) -> Result<()> {
 		self.st.decisions += method_visitor.mst.decisions;
+		add_events(&mut self.st.events, &method_visitor.mst.events);
 		self.shell.methods.push(method_visitor.inner);
 		Ok(())
 	}
